@@ -45,6 +45,12 @@ def run(pid, tier, args):
                 body = {"op": "seq", "kids": [{"op": "grp", "mode": "star", "kid": one} if shape == "each" else {"op": "cap", "f": "T", "fk": kind, "kid": {"op": "grp", "mode": "once", "kid": {"op": "grp", "mode": "plus", "kid": ref("Int")}}},
                                               {"op": "grp", "mode": "opt", "kid": lit("b")}]}
                 gs.append(P.mk_grammar("n%d" % j, [("P0", body, [P.F("T", kind)])], ks=(1, -1)))
+            # nodes with Pos / EndPos / Tokens that can match without consuming anything, at the very start of the input
+            for j, body in enumerate([{"op": "grp", "mode": "star", "kid": {"op": "cap", "f": "A", "fk": "strings", "kid": ref("Ident")}},
+                                      {"op": "seq", "kids": [{"op": "grp", "mode": "opt", "kid": {"op": "cap", "f": "A", "fk": "strings", "kid": lit("a")}}, {"op": "grp", "mode": "star", "kid": lit("(")}]}]):
+                gs.append(P.mk_grammar("w%d" % j, [("P0", body, [P.F("A", "strings")])], ks=(1, -1), with_pos=True))
+            gs.append(P.mk_grammar("w2", [("P0", {"op": "seq", "kids": [{"op": "cap", "f": "K", "fk": "node", "kid": {"op": "prod", "p": "P1"}}, {"op": "grp", "mode": "opt", "kid": lit("b")}]}, [P.F("K", "node", "P1")]),
+                                          ("P1", {"op": "grp", "mode": "star", "kid": {"op": "cap", "f": "A", "fk": "strings", "kid": lit("a")}}, [P.F("A", "strings")])], ks=(1, -1), with_pos=True))
             # a capture whose content is only a lookahead group (it matches without consuming anything)
             for j, kind in enumerate(["token", "tokens", "string", "strings", "bool"]):
                 lk = {"op": "grp", "mode": "once", "kid": {"op": "grp", "mode": "opt", "kid": {"op": "look", "neg": False, "kid": lit("(")}}}
